@@ -10,6 +10,7 @@ import (
 	"errors"
 	"fmt"
 	"net"
+	"sync"
 	"time"
 
 	"github.com/pion/logging"
@@ -39,6 +40,11 @@ type Server struct {
 	listenerConfigs    []ListenerConfig
 	allocationManagers []*allocation.Manager
 	inboundMTU         int
+
+	// connections accepted from the listeners, closed by Close
+	connsLock sync.Mutex
+	conns     map[net.Conn]struct{}
+	closed    bool
 }
 
 // NewServer creates the Pion TURN server.
@@ -149,6 +155,14 @@ func (s *Server) Close() error {
 		}
 	}
 
+	// the connections accepted from the listeners are managed by the server as well
+	s.connsLock.Lock()
+	s.closed = true
+	for conn := range s.conns {
+		_ = conn.Close()
+	}
+	s.connsLock.Unlock()
+
 	if len(errors) == 0 {
 		return nil
 	}
@@ -170,7 +184,16 @@ func (s *Server) readListener(l net.Listener, am *allocation.Manager) {
 			return
 		}
 
+		if !s.trackConn(conn) {
+			// the server was closed while this connection was being accepted
+			_ = conn.Close()
+
+			return
+		}
+
 		go func() {
+			defer s.untrackConn(conn)
+
 			var tlsConnectionState *tls.ConnectionState
 
 			// Extract tls connection state if possible
@@ -204,6 +227,30 @@ func (s *Server) readListener(l net.Listener, am *allocation.Manager) {
 			}
 		}()
 	}
+}
+
+// trackConn remembers an accepted connection so that Close can close it.
+// It returns false if the server has already been closed.
+func (s *Server) trackConn(conn net.Conn) bool {
+	s.connsLock.Lock()
+	defer s.connsLock.Unlock()
+
+	if s.closed {
+		return false
+	}
+	if s.conns == nil {
+		s.conns = map[net.Conn]struct{}{}
+	}
+	s.conns[conn] = struct{}{}
+
+	return true
+}
+
+func (s *Server) untrackConn(conn net.Conn) {
+	s.connsLock.Lock()
+	defer s.connsLock.Unlock()
+
+	delete(s.conns, conn)
 }
 
 type nilAddressGenerator struct{}
